@@ -113,6 +113,7 @@ type cpCall struct {
 	Args   []cpVal
 	Instr  ssa.CallInstruction
 	Result cpVal // what the fold used for the call's value
+	Fun    cpVal // the function value called, for a call that is neither static nor an interface method call
 }
 
 // cpOutcome is one way the folded function can end.
@@ -141,6 +142,11 @@ type cpEngine struct {
 	uid       int
 	opaque    func(*ssa.Function) bool
 	visited   map[*ssa.Function]bool
+	// globals: the cells of package-level variables the fold knows the contents of. While a package
+	// initialiser is being folded (initMode) every module variable gets a cell; afterwards only the
+	// variables that nothing but initialisers ever write keep theirs.
+	globals  map[*ssa.Global]*cpCell
+	initMode bool
 }
 
 type cpAbort struct{ why string }
@@ -170,6 +176,7 @@ func cpFold(P *Program, fn *ssa.Function, args []cpVal) (outs []cpOutcome, ok bo
 // functions folded through.
 func cpFoldOpt(P *Program, fn *ssa.Function, args []cpVal, opaque func(*ssa.Function) bool) (outs []cpOutcome, visited map[*ssa.Function]bool, ok bool, why string) {
 	e := &cpEngine{P: P, MaxOut: cpMaxOutcomes, MaxSteps: 40000, MaxForks: 28, MaxDepth: 8, opaque: opaque, visited: map[*ssa.Function]bool{}}
+	e.globals = cpInitGlobals(P)
 	defer func() { visited = e.visited }()
 	e.pending = [][]bool{nil}
 	for len(e.pending) > 0 {
@@ -355,6 +362,15 @@ func (e *cpEngine) get(fr *cpFrame, v ssa.Value) cpVal {
 	case *ssa.Function:
 		return cpFn{Fn: x}
 	case *ssa.Global:
+		if c, ok := e.globals[x]; ok {
+			return cpPtr{C: c}
+		}
+		if e.initMode && x.Pkg != nil && e.P.isModulePkg(x.Pkg.Pkg) {
+			t := x.Type().(*types.Pointer).Elem()
+			c := &cpCell{V: e.zero(t), T: t}
+			e.globals[x] = c
+			return cpPtr{C: c}
+		}
 		return cpUnk{ID: "global:" + x.String()}
 	case *ssa.Builtin:
 		return cpUnk{ID: "builtin:" + x.Name()}
@@ -584,7 +600,11 @@ func (e *cpEngine) record(fr *cpFrame, ci ssa.CallInstruction, kind string) []cp
 	} else if cc.IsInvoke() {
 		name = "invoke:" + cc.Method.Name()
 	}
-	e.calls = append(e.calls, cpCall{Callee: name, Args: args, Instr: ci})
+	cl := cpCall{Callee: name, Args: args, Instr: ci}
+	if cc.StaticCallee() == nil && !cc.IsInvoke() {
+		cl.Fun = e.get(fr, cc.Value)
+	}
+	e.calls = append(e.calls, cl)
 	// whatever a cell handed out by pointer held is now unknown
 	for _, a := range args {
 		e.havoc(a, 0)
@@ -1346,4 +1366,60 @@ func (e *cpEngine) runDeferred(fr *cpFrame, d cpDeferred, depth int) {
 		name = "invoke:" + cc.Method.Name()
 	}
 	e.calls = append(e.calls, cpCall{Callee: name, Args: d.args, Instr: d.instr})
+}
+
+var cpInitCache = map[*Program]map[*ssa.Global]*cpCell{}
+var cpInitBusy = map[*Program]bool{}
+
+// cpInitGlobals: what the module's package initialisers leave in the
+// package-level variables that nothing else ever writes (initOnlyGlobals): a
+// dispatch table filled by init, a constant slice. Found by folding each
+// initialiser once; a variable whose initialiser forks or fails keeps no
+// value. The cells are shared by all folds: by construction nothing stores
+// into them after initialisation.
+func cpInitGlobals(P *Program) map[*ssa.Global]*cpCell {
+	if g, ok := cpInitCache[P]; ok {
+		return g
+	}
+	if cpInitBusy[P] {
+		return nil
+	}
+	cpInitBusy[P] = true
+	defer delete(cpInitBusy, P)
+	out := map[*ssa.Global]*cpCell{}
+	for _, sp := range []*ssa.Package{P.Avro, P.Time, P.Null} {
+		if sp == nil {
+			continue
+		}
+		fn := sp.Func("init")
+		if fn == nil || fn.Blocks == nil {
+			continue
+		}
+		e := &cpEngine{P: P, MaxOut: 4, MaxSteps: 60000, MaxForks: 4, MaxDepth: 6, visited: map[*ssa.Function]bool{}, globals: map[*ssa.Global]*cpCell{}, initMode: true}
+		e.pending = [][]bool{nil}
+		e.decided = map[string]bool{}
+		nRuns := 0
+		okRun := true
+		for len(e.pending) > 0 {
+			d := e.pending[len(e.pending)-1]
+			e.pending = e.pending[:len(e.pending)-1]
+			e.decisions, e.taken, e.steps, e.calls, e.uid, e.decided = d, nil, 0, nil, 0, map[string]bool{}
+			_, aborted := e.runTop(fn, nil)
+			nRuns++
+			if aborted != "" || nRuns > 1 {
+				okRun = false
+				break
+			}
+		}
+		if !okRun || len(e.pending) > 0 {
+			continue
+		}
+		for g, c := range e.globals {
+			if initOnlyGlobals[g] {
+				out[g] = c
+			}
+		}
+	}
+	cpInitCache[P] = out
+	return out
 }
